@@ -5,7 +5,8 @@
    SP cu h w <term> <pv>                                 serialize_problem               -> S xHEX | E code
    INT base xTEXT                                        int(text, base)                 -> S i<int> | E code
    CLS xTEXT      -> <isdigit per character> <_is_hex 0/1> <_is_alnum_lower 0/1>
-   OKS <term>     -> <dec_ok> <single> <wf>   (0/1 each)
+   OKS <term>     -> <dec_ok> <single> <wf> <tupl_single> <productive>   (0/1 each)
+   UM xURL        -> N | S ( xNAME xWIDTH xHEIGHT xBODY )   the groups of _DESERIALIZE_URL_REG.match
    cu: 0 = no Combinator subclass, 1 = yajilin.YajilinClue as Custom 0                          *)
 open Model
 open Zutil
@@ -133,7 +134,12 @@ let handle toks = match toks with
   | ["CLS"; t] ->
       let s = str_tok t in
       String.concat "" (List.map (fun a -> bool01 (isdigit_c a)) s) ^ " " ^ bool01 (is_hex s) ^ " " ^ bool01 (is_alnum_lower s)
-  | "OKS" :: r -> let (t, _) = parse_term r in bool01 (dec_ok t) ^ " " ^ bool01 (single t) ^ " " ^ bool01 (wf t)
+  | "OKS" :: r -> let (t, _) = parse_term r in
+      bool01 (dec_ok t) ^ " " ^ bool01 (single t) ^ " " ^ bool01 (wf t) ^ " " ^ bool01 (tupl_single t) ^ " " ^ bool01 (productive t)
+  | ["UM"; url] ->
+      (match url_match (str_tok url) with
+       | None -> "N"
+       | Some (((nm, wd), hd), body) -> "S " ^ pv_str (VTup [VStr nm; VStr wd; VStr hd; VStr body]))
   | _ -> "EXN bad request"
 
 let () = main_loop handle
